@@ -130,7 +130,7 @@ pub fn check_content(eng: &FdtEngine, what: &str, line: &str, t_pub: u64, snaps:
     };
     let want_exp = t_pub / 1_000_000 + NTP_OFF + cfg.dur_us / 1_000_000;
     if p.exp != want_exp.to_string() {
-        o.fail("expires", &format!("{}: Expires={} but publish time {} us + duration {} us gives {}", what, p.exp, t_pub, cfg.dur_us, want_exp));
+        o.fail(if want_exp >= (1u64 << 32) { "ntp-era1-expiry" } else { "expires" }, &format!("{}: Expires={} but publish time {} us + duration {} us gives {}", what, p.exp, t_pub, cfg.dur_us, want_exp));
     }
     let cg: Vec<String> = cfg.groups.clone().unwrap_or_default();
     let want_groups = list_hx(&cg);
@@ -187,6 +187,18 @@ pub fn check_instance(eng: &FdtEngine, ix: usize, o: &mut Oracle) {
     let i = &eng.insts[ix];
     let line = i.iline.clone().unwrap_or_default();
     check_content(eng, &format!("instance id {} (publication #{})", i.id, ix), &line, i.exp.time, &i.exp.snaps, o);
+    // being-transferred mode, literal reading of "the objects in transmission": an object the application removed while its
+    // (unstoppable first) transfer is running is still being sent but is no longer listed (finding fdtabs-5)
+    if !eng.cfg.as_ref().unwrap().full {
+        if let Some(p) = parse_iline(&line) {
+            for t in &i.exp.removed_tx {
+                if !p.files.iter().any(|f| f.toi == t.to_string()) {
+                    o.fail("obt-removed-object-in-transmission-not-listed", &format!(
+                        "instance id {} published while TOI {} (removed by the application, transfer still running) is in transmission does not list it", i.id, t));
+                }
+            }
+        }
+    }
 }
 
 pub fn check_current(eng: &FdtEngine, now: u64, line: &str, o: &mut Oracle) {
